@@ -460,7 +460,15 @@ func (fr *Frame) callSiteChecks(st *State, cc *ssa.CallCommon, args []Term, in s
 			env = vc.rootFr.baseEnv(st)
 		} else {
 			blk := in.Block()
-			env.lookup = func(nm string) (SpecVal, bool) { return fr.lookupLocal(nm, blk, st, nil) }
+			env.lookup = func(nm string) (SpecVal, bool) {
+				if nm == "rangeindex" {
+					// the hidden counter of the innermost `for _, x := range slice` loop around the call
+					if v, ok := fr.rangeIndexAt(blk); ok {
+						return v, true
+					}
+				}
+				return fr.lookupLocal(nm, blk, st, nil)
+			}
 			env.lookupAddr = fr.lookupLocalAddr
 		}
 		for i, nm := range names {
@@ -2265,4 +2273,40 @@ func shadowKeyOf(c *FuncContract) string {
 		return "\x00none"
 	}
 	return c.PkgPath + "." + c.Key
+}
+
+// rangeIndexAt: the value of the compiler-generated index of the innermost slice-range loop
+// that contains block b (go/ssa names its header phi "rangeindex").
+func (fr *Frame) rangeIndexAt(b *ssa.BasicBlock) (SpecVal, bool) {
+	var best *loopInfo
+	var bestPhi *ssa.Phi
+	for h, li := range fr.loops {
+		if !li.blocks[b] {
+			continue
+		}
+		var phi *ssa.Phi
+		for _, in := range h.Instrs {
+			p, ok := in.(*ssa.Phi)
+			if !ok {
+				break
+			}
+			if p.Comment == "rangeindex" {
+				phi = p
+			}
+		}
+		if phi == nil {
+			continue
+		}
+		if best == nil || len(li.blocks) < len(best.blocks) {
+			best, bestPhi = li, phi
+		}
+	}
+	if best == nil {
+		return SpecVal{}, false
+	}
+	t, ok := fr.vals[bestPhi]
+	if !ok {
+		return SpecVal{}, false
+	}
+	return SpecVal{T: t, Ty: bestPhi.Type()}, true
 }
